@@ -276,7 +276,16 @@ func (g *Syn) Stmt(d int) string {
 		return g.lhs(d) + " = " + g.Expr(d)
 	case 5:
 		g.note("stmt:lets")
-		return g.lhs(d) + ", " + g.lhs(d) + " = " + g.Expr(d) + ", " + g.Expr(d)
+		// any number of targets against any number of values (the lists need not balance)
+		nl, nr := 1+g.R.Intn(3), 1+g.R.Intn(3)
+		ls, rs := make([]string, nl), make([]string, nr)
+		for i := range ls {
+			ls[i] = g.lhs(d)
+		}
+		for i := range rs {
+			rs[i] = g.Expr(d)
+		}
+		return strings.Join(ls, ", ") + " = " + strings.Join(rs, ", ")
 	case 6:
 		g.note("stmt:letmapitem")
 		return g.Ident() + ", " + g.Ident() + " = " + g.Ident() + "[" + g.Expr(d) + "]"
@@ -284,6 +293,9 @@ func (g *Syn) Stmt(d int) string {
 		g.note("stmt:var")
 		if g.R.Intn(2) == 0 {
 			return "var " + g.Ident() + " = " + g.Expr(d)
+		}
+		if g.R.Intn(2) == 0 {
+			return "var " + g.Ident() + ", " + g.Ident() + ", " + g.Ident() + " = " + g.Expr(d)
 		}
 		return "var " + g.Ident() + ", " + g.Ident() + " = " + g.Expr(d) + ", " + g.Expr(d)
 	case 8, 9:
